@@ -142,6 +142,9 @@ def argv_of(case, with_sources=True):
             a.append('--excitation-pulse=' + pulse_arg(s['pulse']))
             a.append('--excitation-voltage=' + cplx(s['v']))
     a += load_args(case.get('loads') or [], case.get('attach_perm'))
+    if case.get('timing'):
+        # time measurement switched on (prints to stderr); results must not depend on it
+        a.append('--timing')
     return a
 
 
